@@ -92,6 +92,9 @@ def exhaustive(tier):
     return True
 
 
+_KEEP = []
+
+
 def required(tier):
     q = tier == "quick"
     return {
@@ -101,6 +104,7 @@ def required(tier):
         "adjacency_ok": 91,            # 6 binary x 2 sides x 7 child operators + neg x 7
         "style_features": 6,
         "registries": 3,
+        "customised_neighbour_registries": 4,
         "renderer_roundtrips": 400_000 if q else 8_000_000,
         "renderer_ast_checks": 20_000 if q else 400_000,
         "wordform_cases": 2_000 if q else 20_000,
@@ -1288,6 +1292,18 @@ def run_shard(spec, rec):
             for n in ("float", "decimal", "fraction")}
     for n in envs:
         rec.observe("registries", n)
+    # a NEIGHBOUR registry in the same process, customised after construction in the documented ways (its own
+    # preprocessor, definitions, default format) and used: nothing of that may reach the registries above
+    neighbour = pintload.registry()
+    neighbour.preprocessors.append(lambda t: t.replace("//", "/").replace("**", "*").replace("^", "+").replace("(", "(1+"))
+    neighbour.define("c07nb = 3 * meter = m2")
+    neighbour.formatter.default_format = "~P"
+    try:
+        str(neighbour("7 // 2 m2 ** 2"))
+    except Exception:  # noqa: BLE001
+        pass
+    rec.count("customised_neighbour_registries")
+    _KEEP.append(neighbour)          # keep it alive for the whole shard
     watch = Watch([e.ureg for e in envs.values()])
     # liveness of the monitors themselves
     watch.armed = True
